@@ -127,6 +127,49 @@ Example p2_nullable_repaired :
   requests_subset_b (ls_reqs (p2_run true no_faults)) (ls_reqs (p2_run true (fault_at 1 FtEmpty))) = true.
 Proof. vm_compute. split; reflexivity. Qed.
 
+(* ---- plan 5 (a chain of nullable @requires inputs): f1 provides a.r, f2 needs r and provides a.g, f3 needs g
+   and provides a.h.  f3 depends on f0 and f2 only: when f1 fails it is skipped only because the SKIPPED f2 was
+   recorded as errored itself (shouldSkipErroredDependencyLocked) ---- *)
+Definition p5_f0 := single_fetch 0 "s0" "{a{__typename id}}".
+Definition p5_f1 := entity_fetch 1 "s1" "{_entities(r:[" ["a"] [0] (rep_of []).
+Definition p5_f2 := entity_fetch 2 "s2" "{_entities(q:[" ["a"] [0; 1] (rep_of [Fld (bs "r") (Some [bs "A"]) None None (NStr [bs "r"] true)]).
+Definition p5_f3 := entity_fetch 3 "s3" "{_entities(p:[" ["a"] [0; 2] (rep_of [Fld (bs "g") (Some [bs "A"]) None None (NStr [bs "g"] true)]).
+Definition p5_tree : ftree := FTSeq [FTSingle p5_f0; FTPar [FTSingle p5_f1]; FTSingle p5_f2; FTSingle p5_f3].
+Definition p5_kind (id : N) : fkind := match id with 0 => FSingle | _ => FEntity end.
+Definition p5_answer (id : N) (rep : bytes) : json * list json :=
+  match id with
+  | 1 => (JObj [(bs "__typename", JStr (bs "A")); (bs "r", JStr (bs "req"))], [])
+  | 2 => (JObj [(bs "__typename", JStr (bs "A")); (bs "g", JStr (bs "G"))], [])
+  | _ => (JObj [(bs "__typename", JStr (bs "A")); (bs "h", JStr (bs "H"))], [])
+  end.
+Definition p5_run (F : N -> option fault) : lstate := run p5_answer p2_root_answer p5_kind F p5_tree.
+
+Example p5_fault_free :
+  List.map (fun rq => (rq_fetch rq, rq_reps rq)) (ls_reqs (p5_run no_faults)) =
+  [(0, []); (1, [bs "{""__typename"":""A"",""id"":""1""}"]); (2, [bs "{""__typename"":""A"",""id"":""1"",""r"":""req""}"]);
+   (3, [bs "{""__typename"":""A"",""id"":""1"",""g"":""G""}"])].
+Proof. vm_compute. reflexivity. Qed.
+(* every failure kind of f1: f2 and f3 send nothing, all three are recorded *)
+Example p5_chain_skipped :
+  forallb (fun k => match List.map rq_fetch (ls_reqs (p5_run (fault_at 1 k))) with
+                    | [0; 1] => forallb (fun id => mem_n id (ls_errored (p5_run (fault_at 1 k)))) [1; 2; 3]
+                    | _ => false
+                    end)
+          [FtTransport; FtStatusEmpty; FtStatusText; FtStatusErrors; FtEmpty; FtNonJSON; FtTruncated; FtNaNBody;
+           FtErrorsNoData; FtErrorsNullData; FtNullData; FtNaNData; FtCountLess; FtCountMore] = true.
+Proof. vm_compute. reflexivity. Qed.
+(* what the recording in the skip is for: a loader that skips f2 without recording it would prepare f3, whose
+   representation renders with the nullable input as null *)
+Example p5_unrecorded_would_send :
+  let s2 := fst (run_tree unit (faulty_exchange p5_answer p2_root_answer p5_kind (fault_at 1 FtEmpty))
+                          (FTSeq [FTSingle p5_f0; FTSingle p5_f1]) (init_state, tt)) in
+  ls_errored s2 = [1] /\ should_skip p5_f3 s2 = false /\
+  match prepare p5_f3 (ls_data s2) (select_items (ls_data s2) (f_path p5_f3)) with
+  | PLoad _ rq _ => rq_reps rq = [bs "{""__typename"":""A"",""id"":""1"",""g"":null}"]
+  | PSkip _ => False
+  end.
+Proof. vm_compute. split; [reflexivity|]. split; reflexivity. Qed.
+
 (* ---- plan 3: a subgraph body with NaN (astjson parses it as a number) is rendered verbatim ---- *)
 Definition p3_f0 := single_fetch 0 "s0" "{d}".
 Definition p3_tree : ftree := FTSeq [FTSingle p3_f0].
